@@ -18,7 +18,7 @@
 (*   re-serialising the result return.  There is no action "raise".         *)
 (* Recorded runs of the real code (every single-byte corruption of every    *)
 (* frame, the mutation scenarios exported from the build phase, random      *)
-(* bytes) are validated against this phase by TracePktGrammarAny.           *)
+(* bytes) are validated against this phase by PktGrammarAnyTrace.           *)
 EXTENDS PktGrammarLib, TLC, Json
 
 CONSTANTS MutPay,    \* payload lengths of the frames that get mutated
